@@ -44,7 +44,11 @@ func verifNewExecEnvP(maxTasks int) *verifExecEnv {
 // engine interleaves the goroutines at the synchronisation operations of the
 // executor (its mutex, barrier, WaitGroup, atomics, channels).
 func Verif_C16_flush_wait() {
-	c := verifCase(4)
+	c := verifCase(5)
+	if c == 4 {
+		verifAddThenWait()
+		return
+	}
 	tasks := c%2 + 1
 	mode := c / 2
 	e := verifNewExecEnvP(3) // threshold 3: one or two tasks are never flushed by size
@@ -103,4 +107,42 @@ func Verif_C16_flush_wait() {
 	all, dup = e.executed()
 	verifAssert(all && !dup, "every added task is executed exactly once (end)")
 	verifReach("done")
+}
+
+// mode 2 (case 4): the SIZE-triggered path.  The adder's second Add reaches the
+// threshold and hands the batch to the background flusher through the commander
+// channel; the same goroutine then calls Wait at once.  "Wait returns only after
+// every task added before it has finished executing": when Add has returned the
+// batch must already be accounted for, wherever the flusher is between receiving
+// the batch and executing it.
+func verifAddThenWait() {
+	e := verifNewExecEnvP(2)
+	verifClock = 1000 * verifInterval
+	for i := 0; i < 2; i++ {
+		e.mu.Lock()
+		e.count = append(e.count, 0)
+		e.mu.Unlock()
+	}
+	e.add(0)
+	verifAssert(e.started(), "a flusher is running after Add")
+	var wg sync.WaitGroup
+	allAtWait, dupAtWait, waitReturned := false, false, false
+	wg.Add(1)
+	go func() {
+		defer wg.Done()
+		e.add(1) // reaches the threshold: the batch goes to the flusher
+		e.pe.Wait()
+		allAtWait, dupAtWait = e.executed()
+		waitReturned = true
+	}()
+	wg.Wait()
+	verifAssert(waitReturned, "Wait returned")
+	verifAssert(allAtWait, "Wait called right after the Add that filled the batch returns only after the batch has been executed")
+	verifAssert(!dupAtWait, "no task is executed twice")
+	e.pe.Wait()
+	all, dup := e.executed()
+	verifAssert(all && !dup, "every added task is executed exactly once")
+	verifYield()
+	e.check("end")
+	verifReach("size-triggered-then-wait")
 }
